@@ -7,6 +7,7 @@ import (
 	"os"
 	"path/filepath"
 	"runtime"
+	"sync"
 	"syscall"
 	"time"
 )
@@ -47,3 +48,25 @@ func acquireSolverSlot(ctx context.Context) func() {
 		time.Sleep(time.Duration(15+rand.Intn(30)) * time.Millisecond)
 	}
 }
+
+// execWorkers is the number of functions executed symbolically at the same time (AKVERIF_EXEC_WORKERS overrides).
+func execWorkers() int {
+	if s := os.Getenv("AKVERIF_EXEC_WORKERS"); s != "" {
+		var n int
+		if _, err := fmt.Sscanf(s, "%d", &n); err == nil && n >= 1 {
+			return n
+		}
+	}
+	n := runtime.NumCPU() / 2
+	if n < 1 {
+		n = 1
+	}
+	if n > 8 {
+		n = 8
+	}
+	return n
+}
+
+// defsMu guards the Defs maps of contract files: synthetic predicates (induction hypotheses, `use forall` instances) are
+// added while functions are verified in parallel.
+var defsMu sync.RWMutex
